@@ -51,11 +51,13 @@ def pcanon_cfg(v):
     if refscheme.is_objdef(v):
         name = v['class'].split('.')[-1]
         kw = v.get('kwargs', {})
-        if name == 'LabObj':
+        if name in ('LabObj', 'LabObjSub'):
             d = {'a': pcanon_cfg(kw['a'])}
             if 'b' in kw and kw['b'] != 3:
                 d['b'] = pcanon_cfg(kw['b'])
-            return ['obj', 'LabObj', d]
+            if name == 'LabObjSub':
+                d['limit'] = pcanon_cfg(kw.get('limit', 10))
+            return ['obj', name, d]
         if name == 'LabObjSet':
             return ['obj', 'LabObjSet', {'tags': sorted(kw['tags'])}]
         if name == 'LabChainObj':
@@ -79,6 +81,9 @@ def received_cfg(v, gv):
     if refscheme.is_objdef(v):
         name = v['class'].split('.')[-1]
         kw = v.get('kwargs', {})
+        if name == 'LabObjSub':
+            return ['obj', 'LabObjSub', {'a': received_cfg(kw['a'], gv), 'b': received_cfg(kw.get('b', 3), gv),
+                                         'verbose': received_cfg(kw.get('verbose', False), gv), 'limit': received_cfg(kw.get('limit', 10), gv)}]
         if name == 'LabObj':
             return ['obj', 'LabObj', {'a': received_cfg(kw['a'], gv), 'b': received_cfg(kw.get('b', 3), gv),
                                       'verbose': received_cfg(kw.get('verbose', False), gv)}]
